@@ -8,7 +8,10 @@ import (
 	"go/ast"
 	"go/parser"
 	"go/token"
+	"os"
+	"path/filepath"
 	"reflect"
+	"sort"
 	"strings"
 
 	"github.com/dave/dst"
@@ -58,6 +61,23 @@ func (r faultyDec) ResolveIdent(file *ast.File, parent ast.Node, parentField str
 	return r.inner.ResolveIdent(file, parent, parentField, id)
 }
 
+// c17NaiveDec is an identifier resolver that needs no file (ParseDir decorates a whole package node):
+// a selector on an identifier spelled like one of the standard world's packages is a qualified identifier.
+type c17NaiveDec struct{}
+
+func (c17NaiveDec) ResolveIdent(file *ast.File, parent ast.Node, parentField string, id *ast.Ident) (string, error) {
+	if se, ok := parent.(*ast.SelectorExpr); ok && parentField == "Sel" {
+		if x, ok := se.X.(*ast.Ident); ok {
+			for p, n := range stdNames {
+				if n == x.Name && !strings.Contains(p, "/") {
+					return p, nil
+				}
+			}
+		}
+	}
+	return "", nil
+}
+
 type faultyRes struct {
 	inner resolver.RestorerResolver
 	ctl   *faultCtl
@@ -72,7 +92,7 @@ func (r faultyRes) ResolvePackage(path string) (string, error) {
 
 // parse-goast-broken: Decorator.Parse of the template followed by a declaration with a syntax error the
 // parser recovers from (a tree and a syntax error come back when nothing is injected)
-var c17Modes = []string{"decorate-goast-inner", "decorate-goast-outer", "decorate-gotypes", "parse-goast", "restore", "restore-imports-removed", "restore-alias", "restore-file", "parse-goast-broken"}
+var c17Modes = []string{"decorate-goast-inner", "decorate-goast-outer", "decorate-gotypes", "parse-goast", "restore", "restore-imports-removed", "restore-alias", "restore-file", "parse-goast-broken", "parsedir"}
 
 type c17Case struct {
 	Template string `json:"template"`
@@ -254,6 +274,39 @@ func c17Exec(cs c17Case, c *explore.Chooser) core.Outcome {
 				case "parse-goast":
 					d := decorator.NewDecoratorWithImports(token.NewFileSet(), localPath, faultyDec{goast.WithResolver(simple.New(stdNames)), ctl})
 					df, err = d.Parse(src)
+				case "parsedir":
+					// a directory holding the template (package a) and an external test package (a_test)
+					dir, derr := scratchDir("c17dir")
+					if derr != nil {
+						panic(derr)
+					}
+					defer os.RemoveAll(dir)
+					os.WriteFile(filepath.Join(dir, "a.go"), []byte(src), 0o644)
+					os.WriteFile(filepath.Join(dir, "a_test.go"), []byte("package a_test\n\nimport \"fmt\"\n\nfunc t() {\n\tfmt.Println(1)\n}\n"), 0o644)
+					d := decorator.NewDecoratorWithImports(token.NewFileSet(), localPath, faultyDec{c17NaiveDec{}, ctl})
+					var pkgs map[string]*dst.Package
+					pkgs, err = d.ParseDir(dir, nil, 0)
+					if err != nil && len(pkgs) > 0 {
+						wrote = 1 // packages came back together with the error
+					}
+					if err == nil {
+						var names []string
+						for n := range pkgs {
+							names = append(names, n)
+						}
+						sort.Strings(names)
+						for _, n := range names {
+							var fnames []string
+							for fn := range pkgs[n].Files {
+								fnames = append(fnames, fn)
+							}
+							sort.Strings(fnames)
+							for _, fn := range fnames {
+								res.tree += n + "/" + filepath.Base(fn) + ":" + snapshotNode(pkgs[n].Files[fn]) + "\n"
+							}
+						}
+					}
+					return
 				case "parse-goast-broken":
 					d := decorator.NewDecoratorWithImports(token.NewFileSet(), localPath, faultyDec{goast.WithResolver(simple.New(stdNames)), ctl})
 					df, err = d.Parse(src + "\nfunc broken( {\n")
